@@ -528,7 +528,27 @@ theorem plainFilteredBody_sim (cfg : Cfg) {s₁ s₂ : St} (h : Sim K true s₁.
   rw [e]
   split
   · exact plainBody_sim cfg h
-  · exact (runChain_sim (label .cfilter cfg.cfilters) ⟨.plain 0, cfg.plainScript⟩ {} h).2.1
+  · -- the same panic unwinds on both sides; with recovery on the recover handler runs on both
+    have e₁ : (Spec.noCoding cfg).recover = cfg.recover := rfl
+    have e₂ : ∀ s, runRecover (Spec.noCoding cfg) s = runRecover cfg s := fun _ => rfl
+    have e₃ : (Spec.noCoding cfg).plainScript = cfg.plainScript := rfl
+    rw [e₁, e₃]
+    simp only [e₂]
+    have hc := runChain_sim (label .cfilter cfg.cfilters) ⟨.plain 0, cfg.plainScript⟩ {} h
+    generalize runChain (label .cfilter cfg.cfilters) ⟨.plain 0, cfg.plainScript⟩ {} s₁ = Q₁ at hc ⊢
+    generalize runChain (label .cfilter cfg.cfilters) ⟨.plain 0, cfg.plainScript⟩ {} s₂ = Q₂ at hc ⊢
+    obtain ⟨cx1, t1, p1⟩ := Q₁
+    obtain ⟨cx2, t2, p2⟩ := Q₂
+    obtain ⟨_, hs, hp⟩ := hc
+    simp only at hs hp
+    subst hp
+    cases p1 with
+    | none => exact hs
+    | some v =>
+      simp only
+      cases cfg.recover
+      · exact hs
+      · exact runRecover_sim cfg hs
 
 /-- the closure `Handle` registers, around a body that installs nothing -/
 theorem handleWrapper_sim (cfg : Cfg) (sr : SReq) {b₁ b₂ : St → St × Option Str × Nat}
@@ -984,7 +1004,17 @@ theorem plainFilteredBody_inv {cfg : Cfg} (hc : CfgOk (okKey x) cfg) {s : St} (h
   unfold plainFilteredBody
   split
   · exact plainBody_inv hc h
-  · exact runChain_inv _ (chainOk_cfilters hc hc.plain) h
+  · have hi := runChain_inv (fs := label .cfilter cfg.cfilters) (t := ⟨.plain 0, cfg.plainScript⟩) {}
+      (chainOk_cfilters hc hc.plain) h
+    generalize runChain (label .cfilter cfg.cfilters) ⟨.plain 0, cfg.plainScript⟩ {} s = Q at hi ⊢
+    obtain ⟨cx1, s1, p⟩ := Q
+    cases p with
+    | none => exact hi
+    | some v =>
+      simp only
+      split
+      · exact runRecover_inv hc hi
+      · exact hi
 
 theorem handleWrapper_inv (cfg : Cfg) (sr : SReq) {b : St → St × Option Str × Nat}
     (hb : ∀ {s : St}, Inv x s.rc → Inv x (b s).1.rc) {s : St} (h : Inv x s.rc) :
